@@ -173,6 +173,10 @@ NEEDS8 = {
  "C16_b": "process_partial_into_buffer returns Ok((0,0)) early when input_frames_next() == 0 and the input is None: FftFixedOut with the output block larger than the chunk still owes saved frames",
 }
 NEEDS9 = {
+ "C03_b": "SincFixedOut::set_resample_ratio returns early for a non-ramped set to the ratio in effect (cancels a pending ramp but skips update_needed_len): ramped change to a lower ratio, then a non-ramped set back to exactly the running ratio with no call in between -> over-consumes, last_index far negative, interpolator assert two calls later",
+ "C07_b": "SincFixedIn clamps the carried last_index to >= -2*sinc_len: bites only when ceil(1/ratio) >= sinc_len (decimation by at least the sinc length, e.g. sinc_len 16 at 768000->44100) and then discards part of the remainder every chunk",
+ "C12_b": "SincFixedOut::set_resample_ratio runs update_needed_len after both branches: a rejected call on a fresh or just-reset instance rewrites needed_input_size when chunk*(1/ratio) rounds across an integer relative to chunk/ratio (44100/48000, chunk 294)",
+ "C13_b": "process_partial_into_buffer ignores the supplied input when input_frames_next() == 0: only FftFixedOut with the chunk smaller than the FFT block and saved frames covering the next chunk; a Some(input) with the wrong channel count is then accepted",
  "C04_b": "SincFixedOut::set_resample_ratio calls update_needed_len only when new_ratio != target_ratio: set_resample_ratio(r, ramp) then set_resample_ratio(r, no ramp) with no call in between keeps the stale ramp-based length; input_frames_next exceeds input_frames_max only with r near the lowest allowed ratio and chunk*(1/r-1/r_old)/2 > sinc_len/2+2",
  "C05_b": "SincFixedOut::set_chunk_size computes needed_input_size inline from 1/resample_ratio, ignoring a pending ramp: set_resample_ratio(lower, ramp), then set_chunk_size, then process -> stale frames at that boundary",
  "C06_b": "SincFixedOut::set_resample_ratio runs update_needed_len only when the new ratio differs from the ratio in effect: a ramped change to R1 withdrawn before the next call by setting exactly the ratio still in effect (or relative 1.0) keeps the needed size of the withdrawn ramp",
